@@ -248,4 +248,31 @@ static void hwv_dump_raw(FILE *f, hwloc_topology_t t, int phase)
   fputs("E\n", f);
   hwv_map_free(&m);
 }
+
+/* Raw tree around one insertion by cpuset (hook HWLOC_VERIF): the whole tree from the topology root, then the
+ * object being inserted (and anything below it) appended as extra objects.  when=0 (before): phase=10,
+ * ins=<id of obj>; when=1 (after): phase=11, res=<id of the returned object|->, same=<1 if result==obj>. */
+static void hwv_dump_insert(FILE *f, hwloc_topology_t t, int when, hwloc_obj_t root, hwloc_obj_t obj, hwloc_obj_t result)
+{
+  struct hwv_map m;
+  int ty;
+  hwv_map_init(&m);
+  hwv_enum(&m, hwloc_get_root_obj(t));
+  fprintf(f, "T flags=%lu depth=0 nobj=", hwloc_topology_get_flags(t));
+  if (when == 0 || (result != obj)) hwv_enum(&m, obj);   /* still unlinked: append it */
+  fprintf(f, "%u phase=%d insroot=", m.n, when ? 11 : 10);
+  hwv_pid(f, &m, root);
+  fputs(" ins=", f); hwv_pid(f, &m, obj);
+  fputs(" res=", f); hwv_pid(f, &m, result);
+  fprintf(f, " same=%d filters=", result == obj);
+  for (ty = 0; ty < HWLOC_OBJ_TYPE_MAX; ty++) {
+    enum hwloc_type_filter_e fl = HWLOC_TYPE_FILTER_KEEP_ALL;
+    hwloc_topology_get_type_filter(t, (hwloc_obj_type_t)ty, &fl);
+    fprintf(f, "%s%d", ty ? "," : "", (int)fl);
+  }
+  fputs(" acpu=- anode=-\n", f);
+  hwv_dump_objs(f, &m, 0);
+  fputs("E\n", f);
+  hwv_map_free(&m);
+}
 #endif
